@@ -8,7 +8,7 @@
 (* accepted; the second words with y >= j have relative length             *)
 (* (x_m + u - j)/p1: to 2^-44.                                             *)
 (***************************************************************************)
-EXTENDS Limb14, BtpeTable, H2peTable, PdTable, MtTable, ChengTable, Rej64Table, Integers, Sequences, TLC, Json, IOUtils
+EXTENDS Limb14, BtpeTable, H2peTable, PdTable, MtTable, ChengTable, Rej64Table, GeoTable, Integers, Sequences, TLC, Json, IOUtils
 
 TH == "TIER" \in DOMAIN IOEnv /\ IOEnv.TIER = "thorough"
 BTabX == IF TH THEN BTabT ELSE BTab
@@ -17,6 +17,7 @@ PTabX == IF TH THEN PTabT ELSE PTab
 MTabX == IF TH THEN MTabT ELSE MTab
 CTabX == IF TH THEN CTabT ELSE CTab
 JTabX == IF TH THEN JTabT ELSE JTab
+GTabX == IF TH THEN GTabT ELSE GTab
 Rec == ndJsonDeserialize(IOEnv.TRACE)
 VARIABLE l
 Ev == Rec[l]
@@ -74,6 +75,18 @@ Rule == /\ Ev.res = "Ok"
                                    /\ Ev.accepted_at_zero
                                    /\ (a.x # "-1") => (Ev.x = a.x)
                                    /\ Near14(Ev.T, a.frac, 64 - 40)
+             \* Geometric(p), trivial algorithm (p >= 2/3): exactly (floor(p 2^53) + 1) 2^11 words end the call with the value 0
+             [] Ev.op = "geot" -> LET a == GTabX[Ev.case] IN
+                                  /\ a.triv /\ Ev.out_ok /\ Cmp(Ev.T, a.succ) = 0
+             \* Bringmann-Friedrich: the documented k (read off the largest remainder 2^k - 1) ...
+             [] Ev.op = "geok" -> LET a == GTabX[Ev.case] IN
+                                  /\ ~a.triv /\ Ev.out_ok /\ Ev.k = a.k
+             \* ... the words continuing the D loop are a prefix of relative length (1-p)^(2^k) ...
+             [] Ev.op = "geopi" -> LET a == GTabX[Ev.case] IN
+                                   /\ ~a.triv /\ Ev.out_ok /\ Near14(Ev.T, a.pifrac, 64 - a.pitol)
+             \* ... and the uniform words accepting the remainder m are a prefix of relative length (1-p)^m
+             [] Ev.op = "geom" -> LET a == GTabX[Ev.case].ms[Ev.i] IN
+                                  /\ Ev.out_ok /\ Near14(Ev.T, a.frac, 64 - a.tol)
              [] OTHER -> FALSE
 
 TInit == l = 1
